@@ -112,11 +112,11 @@ CHECKS = {
 
     'C18': dict(cat='other', tech='wire-taint dataflow over SSA IR of the six listener programs (necessary conditions only)',
                 text='PARTIAL. The property as a whole (no memory error, bounded time and liveness for every datagram sequence in programs '
-                     'doing socket and timer I/O) is out of reach of a sound static argument here. Decided clauses K1-K5: receive length <= '
+                     'doing socket and timer I/O) is out of reach of a sound static argument here. Decided clauses K1-K8: receive length <= '
                      'buffer size; constant-length copies stay inside their objects; a value read from the datagram (library getter on the '
                      'receive buffer, direct load, decoder out-parameter) is dominated by a bounding comparison before it is used as copy '
                      'length, object offset or VLA size; wire-stepped loops have a non-zero guard; no %s on receive-buffer bytes and no '
-                     'decoder result object with unset members; no access to an object at a point dominated by its free(). Breaking any clause breaks the property for some datagram; holding them does '
+                     'decoder result object with unset members; no access to an object at a point dominated by its free(); indexes and lengths derived from the receive count, and offsets fixed by control flow alone (accumulators over the receive loop), stay inside their objects. Breaking any clause breaks the property for some datagram; holding them does '
                      'not establish the property. The 11 flows that violate the clauses today are listed as known findings (each class '
                      'replayed under ASan, replays/c18); any new flow is a violation.', ref='4.18', engine='taint',
                 note='trusted: clang-14 -O0 + opt-14 mem2reg, irparse.py, taint.py (field-insensitive objects, context-insensitive '
